@@ -61,7 +61,8 @@ theorem bstep_load (b : Bind) (s : State) (w : Which) (file : Str) (names : List
       if ((names.map fun n => pathJoin file n).any fun k => hasKey (getDb s w).register k) then b
       else if read then
         { setRec b w ((List.zip (List.range names.length) names).foldl (recStep file) (getRec b w)) with
-          origins := readBind true (getDb (Registry.step s (.load w file names indexed false)).1 w) s.next
+          origins := readBind true ((List.zip (List.range names.length) names).foldl (recStep file) (getRec b w))
+            (getDb (Registry.step s (.load w file names indexed false)).1 w) s.next
             (names.map fun n => pathJoin file n) b.origins }
       else setRec b w ((List.zip (List.range names.length) names).foldl (recStep file) (getRec b w)) := rfl
 
@@ -91,7 +92,7 @@ theorem bstep_clear (b : Bind) (s : State) (w : Which) (pattern : Option Str) :
 theorem bstep_update (b : Bind) (s : State) (names : Option (List Str)) (deep : Bool) :
     step b s (.update names deep) =
       let r := readKeys s.b s.next (select s.b names) true
-      let os1 := readBind true s.b s.next (select s.b names) b.origins
+      let os1 := readBind true b.recB s.b s.next (select s.b names) b.origins
       if r.2.2.any fun kv => hasKey s.a.register kv.1 then { b with origins := os1 }
       else { origins := if deep then cpBind r.2.2 r.2.1 os1 else os1, recA := carry b.recB r.2.2 b.recA,
              recB := b.recB } := rfl
@@ -99,19 +100,19 @@ theorem bstep_update (b : Bind) (s : State) (names : Option (List Str)) (deep : 
 theorem bstep_copy (b : Bind) (s : State) (names : Option (List Str)) (deep : Bool) :
     step b s (.copy names deep) =
       let r := readKeys s.a s.next (select s.a names) true
-      let os1 := readBind true s.a s.next (select s.a names) b.origins
+      let os1 := readBind true b.recA s.a s.next (select s.a names) b.origins
       { origins := if deep then cpBind r.2.2 r.2.1 os1 else os1, recA := b.recA,
         recB := carry b.recA r.2.2 [] } := rfl
 
 theorem bstep_getm (b : Bind) (s : State) (w : Which) (names : Option (List Str)) (store : Bool) :
     step b s (.getm w names store) =
-      { b with origins := readBind store (getDb s w) s.next (select (getDb s w) names) b.origins } := rfl
+      { b with origins := readBind store (getRec b w) (getDb s w) s.next (select (getDb s w) names) b.origins } := rfl
 
 theorem bstep_getInd (b : Bind) (s : State) (w : Which) (ind : Nat) (store : Bool) :
     step b s (.getInd w ind store) =
       match (getDb s w).keys[ind]? with
       | none => b
-      | some k => { b with origins := readBind store (getDb s w) s.next [k] b.origins } := rfl
+      | some k => { b with origins := readBind store (getRec b w) (getDb s w) s.next [k] b.origins } := rfl
 
 /-! ### registering a key -/
 
@@ -134,7 +135,6 @@ theorem bound_addKey {os : Origins} {d : Db} {r : List (Str × Rec)} (hb : Bound
     · exact absurd hk'' e
 
 theorem keyOK_loaded (os : Origins) (d : Db) (file : Str) (indexed : Bool) (j : Nat) (name : Str)
-    (hnm : nameAddressed file = true → relName file (pathJoin file name) = name)
     (hix : nameAddressed file = false → indexed = true) :
     KeyOK os (addKey d (pathJoin file name) none (some file) (if indexed then some (j + 1) else none))
       (pathJoin file name) (Rec.onFile file (j + 1) name) := by
@@ -144,7 +144,7 @@ theorem keyOK_loaded (os : Origins) (d : Db) (file : Str) (indexed : Bool) (j : 
     rw [lookup_setKey_self] at this
     simp at this
   · intro _
-    unfold readOrigin
+    unfold readOriginRc originOf
     have h1 : lookup (addKey d (pathJoin file name) none (some file) (if indexed then some (j + 1) else none)).parents
         (pathJoin file name) = some (some file) := lookup_setKey_self _ _ _
     have h2 : lookup (addKey d (pathJoin file name) none (some file) (if indexed then some (j + 1) else none)).indices
@@ -152,7 +152,7 @@ theorem keyOK_loaded (os : Origins) (d : Db) (file : Str) (indexed : Bool) (j : 
     rw [h1, h2]
     simp only [Option.getD_some]
     by_cases hna : nameAddressed file = true
-    · simp [Rec.origin, hna, hnm hna]
+    · simp [Rec.origin, hna]
     · rw [Bool.not_eq_true] at hna
       have := hix hna
       subst this
@@ -161,7 +161,6 @@ theorem keyOK_loaded (os : Origins) (d : Db) (file : Str) (indexed : Bool) (j : 
 theorem bound_load_fold (file : Str) (indexed : Bool) (os : Origins) (l : List (Nat × Str)) (d : Db)
     (r : List (Str × Rec)) (hb : Bound os d r) (hnd : (l.map fun jn => pathJoin file jn.2).Nodup)
     (hnew : ∀ jn ∈ l, pathJoin file jn.2 ∉ d.keys)
-    (hnm : nameAddressed file = true → ∀ jn ∈ l, relName file (pathJoin file jn.2) = jn.2)
     (hix : nameAddressed file = false → indexed = true) :
     Bound os ((l.map fun jn => (jn.1, pathJoin file jn.2)).foldl (loadStep file indexed) d)
       (l.foldl (recStep file) r) := by
@@ -172,7 +171,7 @@ theorem bound_load_fold (file : Str) (indexed : Bool) (os : Origins) (l : List (
     rw [List.map_cons, List.nodup_cons] at hnd
     apply ih
     · exact bound_addKey hb (hnew jn List.mem_cons_self) _ _ _ _
-        (keyOK_loaded os d file indexed jn.1 jn.2 (fun hi => hnm hi jn List.mem_cons_self) hix)
+        (keyOK_loaded os d file indexed jn.1 jn.2 hix)
     · exact hnd.2
     · intro jn' hjn'
       show pathJoin file jn'.2 ∉ d.keys ++ [pathJoin file jn.2]
@@ -180,8 +179,6 @@ theorem bound_load_fold (file : Str) (indexed : Bool) (os : Origins) (l : List (
       refine ⟨hnew jn' (List.mem_cons_of_mem _ hjn'), ?_⟩
       intro e
       exact hnd.1 (e ▸ List.mem_map_of_mem (f := fun jn => pathJoin file jn.2) hjn')
-    · intro hi jn' hjn'
-      exact hnm hi jn' (List.mem_cons_of_mem _ hjn')
 
 /-! ### removing a key -/
 
@@ -206,9 +203,7 @@ theorem bound_drop_fold {os : Origins} (m : List Str) (d : Db) (r : List (Str ×
 /-! ### renaming a key -/
 
 theorem bound_renKey {os : Origins} {d : Db} {r : List (Str × Rec)} (hc : Coh d) (hb : Bound os d r)
-    {old newkey : Str} (ho : old ∈ d.keys) (hn : newkey ∉ d.keys) (rc : Rec) (hrc : lookup r old = some rc)
-    (hsafe : (∃ o, lookup d.register old = some (some o)) ∨
-      nameAddressed (((lookup d.parents old).getD none).getD []) = false) :
+    {old newkey : Str} (ho : old ∈ d.keys) (hn : newkey ∉ d.keys) (rc : Rec) (hrc : lookup r old = some rc) :
     Bound os (renKey d old newkey) (setKey (erase r old) newkey rc) := by
   have hreg : hasKey d.register newkey = false := by
     rw [hasKey_false_iff, hc.2.1.mem_iff]; exact hn
@@ -227,26 +222,8 @@ theorem bound_renKey {os : Origins} {d : Db} {r : List (Str × Rec)} (hc : Coh d
     rw [hrc] at h1
     simp only [Option.some.injEq] at h1
     subst h1
-    refine ⟨rc, lookup_setKey_self _ _ _, ?_, ?_⟩
-    · intro o hoo
-      have : lookup (mvKey k0 newkey d.register) newkey = some (some o) := hoo
-      rw [lookup_mvKey_new _ hreg] at this
-      exact h2.1 o this
-    · intro hno
-      have hno' : ∀ o, lookup d.register k0 ≠ some (some o) := by
-        intro o hoo
-        apply hno o
-        show lookup (mvKey k0 newkey d.register) newkey = some (some o)
-        rw [lookup_mvKey_new _ hreg]; exact hoo
-      rcases hsafe with ⟨o, hoo⟩ | hna
-      · exact absurd hoo (hno' o)
-      · have h3 := h2.2 hno'
-        rw [← h3]
-        unfold readOrigin
-        have e1 : lookup (renKey d k0 newkey).parents newkey = lookup d.parents k0 := lookup_mvKey_new _ hpar
-        have e2 : lookup (renKey d k0 newkey).indices newkey = lookup d.indices k0 := lookup_mvKey_new _ hind
-        rw [e1, e2]
-        simp only [hna, Bool.false_eq_true, if_false]
+    exact ⟨rc, lookup_setKey_self _ _ _,
+      keyOK_congr' (d := d) (k := k0) (lookup_mvKey_new _ hreg) (lookup_mvKey_new _ hpar) (lookup_mvKey_new _ hind) h2⟩
   · have hne : k0 ≠ newkey := fun h => hn (h ▸ hk0)
     have hb' : (k0 == old) = false := by simpa using e
     rw [hb']
